@@ -744,8 +744,7 @@ static int32_t utc_load(struct jls_core_s * self, uint16_t signal_id) {
     if (NULL == tmap) {
         return JLS_ERROR_NOT_ENOUGH_MEMORY;
     }
-    int64_t sample_rate = signal_def->sample_rate;
-    int64_t sample_start = -3600 * sample_rate;  // within the last hour
+    int64_t sample_start = INT64_MIN / 2;  // before every stored pair, however long before the first sample
     int32_t rc = jls_core_utc(self, signal_id, sample_start, jls_tmap_add_cbk, tmap);
     if (rc) {
         jls_tmap_free(tmap);  // a partial map must not answer later requests
